@@ -136,6 +136,19 @@ func cmdCheck(args []string) int {
 			keys = append(keys, k)
 		}
 	}
+	// lemmas used by the selected contracts are proved in the same check
+	seenKey := map[string]bool{}
+	for _, k := range keys {
+		seenKey[k] = true
+	}
+	for _, k := range append([]string{}, keys...) {
+		for _, ln := range strings.Split(e.Contracts[k].Opts["uses"], ",") {
+			if ln = strings.TrimSpace(ln); ln != "" && !seenKey["lemma:"+ln] && e.Contracts["lemma:"+ln] != nil {
+				seenKey["lemma:"+ln] = true
+				keys = append(keys, "lemma:"+ln)
+			}
+		}
+	}
 	if len(keys) == 0 {
 		fmt.Printf("UNDECIDED property=%s reason=%q\n", *prop, "no contracts serve this property")
 		writeEvidenceError(outDir, *prop, *tier, seed, "no contracts", time.Since(t0).Seconds())
